@@ -43,6 +43,26 @@ theorem unify_dyn {ve : Ty} (hw : wf ve = true) (vals : List Value) (hne : vals 
     simp only [unifyElemTy, Ty.isDyn, if_true, hv]
     exact unify_same hw vals (fun x hx => h x (List.mem_cons_of_mem _ hx))
 
+theorem can_same {ve : Ty} (hw : wf ve = true) : ∀ vals : List Value, (∀ v ∈ vals, v.ty = ve) →
+    canElemTy vals ve = true
+  | [], _ => rfl
+  | v :: vals, h => by
+    have hv : v.ty = ve := h v (by simp)
+    have ih := can_same hw vals (fun x hx => h x (List.mem_cons_of_mem _ hx))
+    simp only [canElemTy]
+    by_cases hd : ve.isDyn = true
+    · simp [hd, hv, ih]
+    · simp [hd, hv, ih, (Ty.equals_iff_eq ve ve hw hw).mpr rfl]
+
+theorem can_dyn {ve : Ty} (hw : wf ve = true) (vals : List Value)
+    (h : ∀ v ∈ vals, v.ty = ve) : canElemTy vals .dyn = true := by
+  cases vals with
+  | nil => rfl
+  | cons v vals =>
+    have hv : v.ty = ve := h v (by simp)
+    simp only [canElemTy, Ty.isDyn, if_true, hv]
+    exact can_same hw vals (fun x hx => h x (List.mem_cons_of_mem _ hx))
+
 /-! ### Go-map helpers on key lists without duplicates -/
 
 theorem lastWins_nodup : ∀ (ks : List String) (vs : List Value), ks.Nodup → ks.length = vs.length →
@@ -243,7 +263,7 @@ theorem zipH_of {norm : String → String} : ∀ (es ves : List Ty) (vs : List P
 /-- the conclusion for one value: the encoder succeeds with `j`, and decoding `j` against
 the same constraint (at top level or nested) returns the type and an equal payload -/
 def Good (env : JEnv) (t vt : Ty) (p : Payload) (mj : Res Json) : Prop :=
-  ∃ j p', mj = .ok j ∧ (∀ top, unmarshal env top j t = .ok ⟨vt, p'⟩) ∧ sameP p' p = true
+  ∃ j p', mj = .ok j ∧ unmarshal env j t = .ok ⟨vt, p'⟩ ∧ sameP p' p = true
 
 /-- the prologue of `marshal` (marks, unknown, dynamic wrapper) on top of the body -/
 theorem rt_entry (env : JEnv) (p : Payload) (t vt : Ty) (h : RT env.norm t vt p)
@@ -264,9 +284,8 @@ theorem rt_entry (env : JEnv) (p : Payload) (t vt : Ty) (h : RT env.norm t vt p)
     have hx' : exactK vt vt p = true := by simpa [exact, Ty.isDyn] using hx
     obtain ⟨j, p', hj, hu, hs⟩ := hb vt h.self hx' (fun a => a)
     refine ⟨.obj ["value", "type"] [j, tj], p', by simp [htj, hj], ?_, hs⟩
-    intro top
     have hne : ("value" = "type") = False := by decide
-    simp [unmarshal, dynScan, dynValue, hof, hu true]
+    simp [unmarshal, dynScan, dynValue, hof, hu]
   · simp only [hd, Bool.false_eq_true, if_false]
     have hdv : t.isDyn = true → vt.isDyn = true := by
       intro ht
@@ -298,7 +317,7 @@ theorem rt_body (env : JEnv) : ∀ (p : Payload) (t vt : Ty), RT env.norm t vt p
   | .null, t, vt, h, hx, _ => by
     have : t = vt := (Ty.equals_iff_eq t vt h.wt h.wvt).mp (by simpa [exactK] using hx)
     subst this
-    exact ⟨.null, .null, by simp [marshalKnown], fun top => by simp [unmarshal], by simp [sameP]⟩
+    exact ⟨.null, .null, by simp [marshalKnown], by simp [unmarshal], by simp [sameP]⟩
   | .unk _, _, _, h, _, _ => by have := h.known; simp [Payload.whollyKnown] at this
   | .marked _ _, _, _, h, _, _ => by have := h.unmarked; simp [Payload.containsMarked] at this
   | .caps, _, vt, h, _, _ => by have := h.wfp; cases vt <;> simp [wfP] at this
@@ -315,7 +334,7 @@ theorem rt_body (env : JEnv) : ∀ (p : Payload) (t vt : Ty), RT env.norm t vt p
       have hc := h.conf
       cases t with
       | bool =>
-        exact ⟨.bool x, .b x, by simp [marshalKnown], fun top => by simp [unmarshal, unmarshalPrim],
+        exact ⟨.bool x, .b x, by simp [marshalKnown], by simp [unmarshal, unmarshalPrim],
           by simp [sameP]⟩
       | dyn => exact absurd (hd rfl) (by simp [Ty.isDyn])
       | _ => simp [«matches»] at hc
@@ -329,7 +348,7 @@ theorem rt_body (env : JEnv) : ∀ (p : Payload) (t vt : Ty), RT env.norm t vt p
       | string =>
         have hf : env.norm x = x := by simpa [strsFixed] using h.strs
         exact ⟨.str x, .s x, by simp [marshalKnown],
-          fun top => by simp [unmarshal, unmarshalPrim, hf], by simp [sameP]⟩
+          by simp [unmarshal, unmarshalPrim, hf], by simp [sameP]⟩
       | dyn => exact absurd (hd rfl) (by simp [Ty.isDyn])
       | _ => simp [«matches»] at hc
     | _ => simp [wfP] at hw
@@ -342,7 +361,7 @@ theorem rt_body (env : JEnv) : ∀ (p : Payload) (t vt : Ty), RT env.norm t vt p
       | number =>
         obtain ⟨hinf, n', hp, hr⟩ := numOK_spec (by simpa [numsOK] using h.nums)
         exact ⟨.num (Num.textF x), .n n', by simp [marshalKnown, hinf],
-          fun top => by simp [unmarshal, unmarshalPrim, hp, Res.map], by simpa [sameP] using hr⟩
+          by simp [unmarshal, unmarshalPrim, hp, Res.map], by simpa [sameP] using hr⟩
       | dyn => exact absurd (hd rfl) (by simp [Ty.isDyn])
       | _ => simp [«matches»] at hc
     | _ => simp [wfP] at hw
@@ -375,7 +394,7 @@ theorem rt_body (env : JEnv) : ∀ (p : Payload) (t vt : Ty), RT env.norm t vt p
           have hee : e = ve := (Ty.equals_iff_eq e ve hwe hwve).mp (by simpa [exactK] using hx)
           subst hee
           exact ⟨.arr [], .seq [], by simp [marshalKnown, marshalAll, Res.map],
-            fun top => by simp [unmarshal, unmarshalAll, listVal], by simp [sameP, sameL]⟩
+            by simp [unmarshal, unmarshalAll, listVal], by simp [sameP, sameL]⟩
         · have hxa : exactAll e ve vs = true := by
             have : vs.isEmpty = false := by cases vs <;> simp_all
             simpa [exactK, this] using hx
@@ -386,8 +405,7 @@ theorem rt_body (env : JEnv) : ∀ (p : Payload) (t vt : Ty), RT env.norm t vt p
           have hvemp : vals.isEmpty = false := by cases vals <;> simp_all
           refine ⟨.arr js, .seq (vals.map (·.v)), by simp [marshalKnown, hj, Res.map], ?_,
             by simpa [sameP] using hsame⟩
-          intro top
-          simp [unmarshal, hu, listVal, hvemp, unify_dyn hwve vals hvne hty, Res.map]
+          simp [unmarshal, hu, listVal, hvemp, can_dyn hwve vals hty, unify_dyn hwve vals hvne hty, Res.map]
       | dyn => exact absurd (hd rfl) (by simp [Ty.isDyn])
       | _ => simp [«matches»] at hc
     | tuple ves =>
@@ -410,7 +428,6 @@ theorem rt_body (env : JEnv) : ∀ (p : Payload) (t vt : Ty), RT env.norm t vt p
           rw [this, matchesL_length hc]
         refine ⟨.arr js, .seq (vals.map (·.v)), by simp [marshalKnown, hj, Res.map], ?_,
           by simpa [sameP] using hsame⟩
-        intro top
         simp [unmarshal, hu, hl, tupleVal, hty]
       | dyn => exact absurd (hd rfl) (by simp [Ty.isDyn])
       | _ => simp [«matches»] at hc
@@ -449,7 +466,7 @@ theorem rt_body (env : JEnv) : ∀ (p : Payload) (t vt : Ty), RT env.norm t vt p
           have hee : e = ve := (Ty.equals_iff_eq e ve hwe hwve).mp (by simpa [exactK] using hx)
           subst hee
           exact ⟨.obj [] [], .smap [] [], by simp [marshalKnown, marshalAll, Res.map],
-            fun top => by simp [unmarshal, unmarshalAll, mapVal, lastWins], by simp [sameP, sameL]⟩
+            by simp [unmarshal, unmarshalAll, mapVal, lastWins], by simp [sameP, sameL]⟩
         · have hxa : exactAll e ve vs = true := by
             have : vs.isEmpty = false := by cases vs <;> simp_all
             simpa [exactK, this] using hx
@@ -465,9 +482,8 @@ theorem rt_body (env : JEnv) : ∀ (p : Payload) (t vt : Ty), RT env.norm t vt p
           have hnd := strictAsc_nodup hasc
           refine ⟨.obj ks js, .smap ks (vals.map (·.v)), by simp [marshalKnown, hj, Res.map], ?_,
             by simpa [sameP] using hsame⟩
-          intro top
           simp [unmarshal, hu, mapVal, lastWins_nodup ks vals hnd (by omega), hkne,
-            unify_dyn hwve vals hvne hty, map_fixed ks hs0.1, hasDup_nodup ks hnd,
+            can_dyn hwve vals hty, unify_dyn hwve vals hvne hty, map_fixed ks hs0.1, hasDup_nodup ks hnd,
             sortKV_asc ks (vals.map (·.v)) hasc (by simp; omega)]
       | dyn => exact absurd (hd rfl) (by simp [Ty.isDyn])
       | _ => simp [«matches»] at hc
@@ -500,15 +516,16 @@ theorem rt_body (env : JEnv) : ∀ (p : Payload) (t vt : Ty), RT env.norm t vt p
         obtain ⟨js, vals, hj, _, hua, hty, hsame⟩ := rt_zip env vs ts vts hz
         have hlen := sameL_length hsame
         simp only [List.length_map] at hlen
-        have hfa := hua ks os ks ts os (by omega) (by omega) (FieldsIn_self hasc)
-        have hov : objectVal ks ts ks vals = vals := by
+        have hkf : ks.map env.norm = ks := map_fixed ks hs0.1
+        have hfa := hua ks os ks ts os (by omega) (by omega) (by rw [hkf]; exact FieldsIn_self hasc)
+        have hov : objectVal ks ts (ks.map env.norm) vals = vals := by
+          rw [hkf]
           have := objectVal_self ks ts vals [] [] rfl (by simpa using strictAsc_nodup hasc)
             (by omega) (by omega)
           simpa using this
         have hvos : ks.map (fun _ => false) = vos := map_const_false ks vos (by omega) hno.1
         refine ⟨.obj ks js, .smap ks (vals.map (·.v)), by simp [marshalKnown, hj, Res.map], ?_,
           by simpa [sameP] using hsame⟩
-        intro top
         simp [unmarshal, hfa, hov, hty, hvos]
       | dyn => exact absurd (hd rfl) (by simp [Ty.isDyn])
       | _ => simp [«matches»] at hc
@@ -525,7 +542,7 @@ theorem rt_all (env : JEnv) : ∀ (vs : List Payload) (e ve : Ty),
     obtain ⟨js, vals, hjs, hus, hty, hss⟩ := rt_all env vs e ve
       (fun x hx' => h x (List.mem_cons_of_mem _ hx')) (fun x hx' => hx x (List.mem_cons_of_mem _ hx'))
     refine ⟨j :: js, ⟨ve, p'⟩ :: vals, by simp [marshalAll, hj, hjs, Res.map],
-      by simp [unmarshalAll, hu false, hus], ?_, by simp [sameL, hs, hss]⟩
+      by simp [unmarshalAll, hu, hus], ?_, by simp [sameL, hs, hss]⟩
     intro x hx'
     rcases List.mem_cons.mp hx' with rfl | hx'
     · rfl
@@ -534,7 +551,7 @@ theorem rt_all (env : JEnv) : ∀ (vs : List Payload) (e ve : Ty),
 theorem rt_zip (env : JEnv) : ∀ (vs : List Payload) (es ves : List Ty), ZipH env.norm es ves vs →
     ∃ js vals, marshalZip env es ves vs = .ok js ∧ unmarshalZip env js es = .ok vals ∧
       (∀ (ks : List String) (osK : List Bool) (ns : List String) (ts : List Ty) (os : List Bool),
-        ks.length = vs.length → osK.length = vs.length → FieldsIn ks es osK ns ts os →
+        ks.length = vs.length → osK.length = vs.length → FieldsIn (ks.map env.norm) es osK ns ts os →
         unmarshalAttrs env ks js ns ts os = .ok vals) ∧
       vals.map (·.ty) = ves ∧ sameL (vals.map (·.v)) vs = true
   | [], [], [], _ => ⟨[], [], by simp [marshalZip], by simp [unmarshalZip],
@@ -551,7 +568,7 @@ theorem rt_zip (env : JEnv) : ∀ (vs : List Payload) (es ves : List Ty), ZipH e
       (fun t' a b c => rt_body env v t' ve a b c)
     obtain ⟨js, vals, hjs, hus, hua, hty, hss⟩ := rt_zip env vs es ves hrest
     refine ⟨j :: js, ⟨ve, p'⟩ :: vals, by simp [marshalZip, hj, hjs, Res.map],
-      by simp [unmarshalZip, hu false, hus], ?_, by simp [hty], by simp [sameL, hs, hss]⟩
+      by simp [unmarshalZip, hu, hus], ?_, by simp [hty], by simp [sameL, hs, hss]⟩
     intro ks osK ns ts os hk ho hf
     cases ks with
     | nil => simp at hk
@@ -559,8 +576,8 @@ theorem rt_zip (env : JEnv) : ∀ (vs : List Payload) (es ves : List Ty), ZipH e
       cases osK with
       | nil => simp at ho
       | cons o osK =>
-        simp only [FieldsIn] at hf
-        simp [unmarshalAttrs, hf.1, hu false,
+        simp only [List.map_cons, FieldsIn] at hf
+        simp [unmarshalAttrs, hf.1, hu,
           hua ks osK ns ts os (by simpa using hk) (by simpa using ho) hf.2]
 end
 
